@@ -20,7 +20,7 @@ UNIT = dict(
     ('R7', 'Compiler::*', dict(pat=r'^(\s*(?:///?[^\n]*\n\s*)*)fn ', rep=r'\1pub fn ', regex=True, optional=True)),
     ('R3', 'Compiler::launch', dict(pat=r'unreachable!\("[^"]*"\)', rep='verif_unreachable()', regex=True, min=1)),
     # the slice `&v[..v.len() - 1]` of the trailers -> a named operation (Verus has no spec for range indexing of a Vec)
-    ('R6', 'Compiler::launch', dict(pat=r'&atom\.trailers\[\.\.(atom\.trailers\.len\(\) - 1)\]', rep=r'verif_prefix(&atom.trailers, \1)', regex=True, count=1)),
+    ('R6', 'Compiler::launch', dict(pat=r'&atom\.trailers\[\.\.([^\]]+)\]', rep=r'verif_prefix(&atom.trailers, \1)', regex=True, count=1)),
     # R13: the loop over the arguments -> index loop (same order)
     ('R13', 'Compiler::launch', dict(pat=r'for expr in &call\.args \{', rep='let mut verif_i: usize = 0;\n          while verif_i < call.args.len() {\n            let expr = &call.args[verif_i];', regex=True, count=1)),
     ('R13', 'Compiler::launch', dict(pat=r'(?s)(let expr = &call\.args\[verif_i\];.*?)(\n          \})', rep=r'\1\n            verif_i += 1;\2', regex=True, count=1)),
